@@ -122,8 +122,20 @@ def m_char_indices(ex, a):
     return IterV(iter(out))
 @model_rx(r'^(?:core::|alloc::|std::)?str::<impl str>::replace$')
 def m_replace(ex, a, m):
-    s0, pat, to = conc(ex, as_str(a[0])), conc(ex, as_str(a[1])), conc(ex, as_str(a[2]))
-    return rstr(s0.replace(pat, to))
+    src, pat, to = as_str(a[0]), conc(ex, as_str(a[1])), conc(ex, as_str(a[2]))
+    c0 = src.concrete()
+    if c0 is not None: return rstr(c0.replace(pat, to))
+    # symbolic chars: left-to-right non-overlapping matching, forking on each character comparison
+    out, i, n, k = [], 0, len(src.chars), len(pat)
+    def is_ch(c, p):
+        if isinstance(c, str): return c == p
+        return ex.branch_bool(Bool(c.bv == ord(p)))
+    while i < n:
+        if i + k <= n and all(is_ch(src.chars[i + j], pat[j]) for j in range(k)):
+            out.extend(list(to)); i += k
+        else:
+            out.append(src.chars[i]); i += 1
+    return StrV(out)
 @model_rx(r'^(?:core::|alloc::|std::)?str::<impl str>::parse$')
 def m_parse_i32(ex, a, m):
     txt = conc(ex, as_str(a[0]), 'number text')
